@@ -30,7 +30,8 @@ class VLoop(asyncio.SelectorEventLoop):
 
     def call_at(self, when, callback, *args, context=None):
         if self._jitter:
-            when = when + self._rng.random() * self._jitter
+            when = when + round(self._rng.random() * self._jitter, 3)     # whole milliseconds
+        when = round(when, 6)      # keep the virtual clock on a 1 us grid (no float drift over thousands of 0.1 s sleeps)
         return super().call_at(when, callback, *args, context=context)
 
     def _run_once(self):
